@@ -179,11 +179,21 @@ def run_A(scn, cfg, chooser, ref_cache=None):
     if build_exc is None and scn.get("pair") and not relax:
         try:
             pscn = scn["pair"]
+            if pscn.get("share_cube") and (pscn["cube"] != scn["cube"] or pscn["layout"] != scn["layout"]):
+                raise ValueError("inconsistent pair")  # (a hand-edited / badly cut case: run the primary only)
             pref, pref_exc, _ = eager_reference(pscn)
             if pref_exc is None:
-                pcube = S.build_cube(pscn)
                 paux = S.build_aux(pscn, lazy=True)
-                plazy = S.apply_op(pscn, S.make_lazy(pscn, pcube), lazy=True, aux=paux)
+                if pscn.get("share_cube"):
+                    # both results hang off the very same lazy cube object (one upstream graph)
+                    rr.probes["pair_shares_lazy_cube"] = rr.probes.get("pair_shares_lazy_cube", 0) + 1
+                    plazy = S.apply_op(pscn, lazy_cube, lazy=True, aux=paux)
+                else:
+                    pcube = S.build_cube(pscn)
+                    plazy = S.apply_op(pscn, S.make_lazy(pscn, pcube), lazy=True, aux=paux)
+                for k, v in paux["__watch__"].items():  # the second call's arguments are inputs too (O3)
+                    inputs["pair." + k] = v
+                before.update(S.input_digests({k: v for k, v in inputs.items() if k.startswith("pair.")}))
                 pair = {"ref": pref, "lazy": plazy}
         except Exception:  # noqa: BLE001 - the pair is an optional extra; the primary still runs
             pair = None
